@@ -345,7 +345,11 @@ func drawC11Op(t *rapid.T, allowHostile bool) c11Op {
 	if allowHostile {
 		kinds = append(kinds, "gc", "adversary", "adversary")
 	}
-	o := c11Op{Kind: rapid.SampledFrom(kinds).Draw(t, "kind")}
+	return drawC11OpOfKind(t, rapid.SampledFrom(kinds).Draw(t, "kind"))
+}
+
+func drawC11OpOfKind(t *rapid.T, kind string) c11Op {
+	o := c11Op{Kind: kind}
 	o.Key = rapid.SliceOfN(rapid.Byte(), 1, 40).Draw(t, "key")
 	o.Counter = gen.Counter().Draw(t, "counter")
 	if strings.HasPrefix(o.Kind, "totp") {
@@ -606,5 +610,109 @@ func TestC11_Concurrent(t *testing.T) {
 			}
 		}
 		return c
+	})
+}
+
+// (c) saturation: many goroutines inside the SAME kind of call at once ---------------
+//
+// The mixed scripts above rarely have more than a handful of goroutines inside one library function at the same
+// instant. Anything in the library with a capacity — a semaphore in front of validation, a fixed ring of scratch
+// buffers, a bounded cache — shows only when more goroutines than that are inside the same function at once. Here 33..64
+// goroutines run one and the same drawn call in a tight loop without ever yielding voluntarily: a goroutine leaves
+// the processor only when the scheduler preempts it (every 10 ms), which happens inside the library call, so after a
+// few scheduling rounds almost all goroutines are suspended in the middle of that call.
+
+type c11SatCase struct {
+	Op         c11Op `json:"op"`
+	Goroutines int   `json:"goroutines"`
+	Procs      int   `json:"procs"`
+}
+
+func checkC11Sat(c c11SatCase) verdict {
+	defer ev.Inflight("C11", "saturation", c)()
+	old := runtime.GOMAXPROCS(c.Procs)
+	defer runtime.GOMAXPROCS(old)
+	want := c.Op.expect()
+	before := raceReports()
+	// long enough for every goroutine to be preempted at least twice: (goroutines / procs) scheduling rounds of 10 ms
+	budget := time.Duration(3*(c.Goroutines/c.Procs+1)) * 10 * time.Millisecond
+	if budget > 900*time.Millisecond {
+		budget = 900 * time.Millisecond
+	}
+	var mu sync.Mutex
+	var firstErr string
+	var calls int64
+	var wg sync.WaitGroup
+	start := make(chan struct{})
+	for g := 0; g < c.Goroutines; g++ {
+		wg.Add(1)
+		go func(g int) {
+			defer wg.Done()
+			defer func() {
+				if r := recover(); r != nil {
+					mu.Lock()
+					if firstErr == "" {
+						firstErr = fmt.Sprintf("goroutine %d panicked: %v", g, r)
+					}
+					mu.Unlock()
+				}
+			}()
+			<-start
+			deadline := time.Now().Add(budget)
+			n := int64(0)
+			for i := 0; ; i++ {
+				got := c.Op.run()
+				n++
+				if got != want {
+					mu.Lock()
+					if firstErr == "" {
+						firstErr = fmt.Sprintf("goroutine %d call %d (%s): got %v while %d goroutines run the same call, alone it returns %v", g, i, c.Op.Kind, got, c.Goroutines, want)
+					}
+					mu.Unlock()
+					break
+				}
+				if i%64 == 63 && !time.Now().Before(deadline) {
+					break
+				}
+			}
+			mu.Lock()
+			calls += n
+			mu.Unlock()
+		}(g)
+	}
+	close(start)
+	wg.Wait()
+	recorders["C11/saturation"].Label("calls", calls)
+	labels := []string{"kind=" + c.Op.Kind, fmt.Sprintf("procs=%d", c.Procs), fmt.Sprintf("goroutines=%d", c.Goroutines)}
+	if firstErr != "" {
+		return bad(true, labels, "%s", firstErr)
+	}
+	if n := raceReports(); n > before {
+		return bad(true, labels, "the race detector reported %d data race(s) while this case ran: %s", n-before, raceText())
+	}
+	return ok(true, labels...)
+}
+
+var c11Sat = newPart("C11", "saturation",
+	"64 (first pass over the kinds) or 33..64 goroutines at GOMAXPROCS in {2,4,16} run one and the same rapid-drawn call (each kind of operation in turn: HOTP/TOTP/OCRA generation and validation incl. wrong codes and failing calls, suite lookups, URL generation, helpers) in a tight loop with no voluntary yield for 3 x (goroutines/procs) scheduler rounds, so that nearly all goroutines are preempted inside that call at the same time (-race build); oracles: every result equals what the call returns alone, no panic, no race report; all cases non-trivial; the label 'calls' counts library calls made; a failure stores the case, the schedule cannot be replayed",
+	checkC11Sat)
+
+var c11SatKinds = []string{"hotp-val", "totp-val", "ocra-val", "hotp-gen", "totp-gen", "ocra-gen", "lookup", "url", "hotp-url", "helpers", "list", "hotp-err", "totp-err", "ocra-err"}
+
+// satGoroutines: the first pass over the kinds (all of the quick tier) uses the largest number the property names, 64,
+// which exceeds any capacity a smaller number would exceed; later passes vary it.
+func satGoroutines(t *rapid.T, idx int) int {
+	if idx <= len(c11SatKinds) {
+		return 64
+	}
+	return rapid.SampledFrom([]int{33, 40, 48, 64}).Draw(t, "goroutines")
+}
+
+func TestC11_Saturation(t *testing.T) {
+	idx := 0
+	c11Sat.rapid(t, ev.Pick(len(c11SatKinds), 8*len(c11SatKinds)), func(t *rapid.T) c11SatCase {
+		kind := c11SatKinds[idx%len(c11SatKinds)] // every kind in turn: the quick tier covers each once
+		idx++
+		return c11SatCase{Op: drawC11OpOfKind(t, kind), Goroutines: satGoroutines(t, idx), Procs: rapid.SampledFrom([]int{2, 4, 16}).Draw(t, "procs")}
 	})
 }
